@@ -38,49 +38,6 @@ theorem nodup_idx {α} {l : List α} (hn : l.Nodup) {i j : Nat} {x : α}
   exact (List.getElem?_inj hil hn).mp (hi.trans hj.symm)
 
 
-theorem LInv.slot_inj {h : List Uv} {l : List Nat} (hi : LInv h l) {u u' s : Nat}
-    (h1 : h[u]? = some (Uv.opn s)) (h2 : h[u']? = some (Uv.opn s)) : u = u' := by
-  by_cases he : u = u'
-  · exact he
-  · exfalso
-    have m1 := hi.complete u s h1
-    have m2 := hi.complete u' s h2
-    have hs := hi.sorted
-    have : ∀ l : List Nat, l.Pairwise (Desc h) → u ∈ l → u' ∈ l → False := by
-      intro l hp
-      induction l with
-      | nil => intro h; simp at h
-      | cons x l ih =>
-        rw [List.pairwise_cons] at hp
-        intro a b
-        rcases List.mem_cons.mp a with rfl | a'
-        · rcases List.mem_cons.mp b with rfl | b'
-          · exact he rfl
-          · have := hp.1 u' b' s s h1 h2; omega
-        · rcases List.mem_cons.mp b with rfl | b'
-          · have := hp.1 u a' s s h2 h1; omega
-          · exact ih hp.2 a' b'
-    exact this l hs m1 m2
-
-theorem LInv.set_closed {h : List Uv} {l : List Nat} (hi : LInv h l) {id : Nat} {w : Val}
-    (hc : h[id]? = some (Uv.closed w)) (v : Val) : LInv (h.set id (Uv.closed v)) l := by
-  have key : ∀ (u s : Nat), (h.set id (Uv.closed v))[u]? = some (Uv.opn s) ↔ h[u]? = some (Uv.opn s) := by
-    intro u s
-    by_cases he : id = u
-    · subst he
-      have hl := (List.getElem?_eq_some_iff.mp hc).1
-      rw [List.getElem?_set_self hl, hc]; simp
-    · rw [List.getElem?_set_ne he]
-  refine ⟨?_, ?_, ?_⟩
-  · refine hi.sorted.imp ?_
-    intro a b hab s s' h1 h2
-    exact hab s s' ((key _ _).mp h1) ((key _ _).mp h2)
-  · intro u hu
-    obtain ⟨s, hs⟩ := hi.allOpen u hu
-    exact ⟨s, (key _ _).mpr hs⟩
-  · intro u s hu
-    exact hi.complete u s ((key _ _).mp hu)
-
 /-! ### one lemma per operation -/
 
 section ops
